@@ -13,6 +13,9 @@
 //!  9 rewrite   truncate to 0, then rewrite without reopening
 //! 10 hugeseek  seeks to offsets around u32::MAX / i64 limits, then write / read
 //! 11 stamps    set_* then (flush|drop) then rename then list
+//! 13 aliasmove cross-directory renames that KEEP the name while the destination already holds another long name with
+//!              the same 8.3 alias (STEM~1 in both directories; also ≥ 5 collisions = hash form), with a create+remove
+//!              in the destination in between; then list, open by alias and by long name
 //!
 //! Every history ends with: drop handles, list everything (bounded walk), stats, unmount, mount, list everything, unmount.
 use super::*;
@@ -764,8 +767,95 @@ fn t_sessions(e: &mut E, rng: &mut SplitMix64) {
     }
 }
 
+fn t_aliasmove(e: &mut E, rng: &mut SplitMix64) {
+    // long names sharing the alias stem TEXTFI (…~1.TXT, ~2.TXT, …; from the fifth collision on the hash form)
+    let family = [
+        "TextFile.Mine.txt",
+        "TextFile.Other.txt",
+        "TextFile.Third.txt",
+        "TextFile number four.txt",
+        "textfile-5.txt",
+        "TextFiles and more.txt",
+        "TEXTFILE.SEVEN.TXT",
+    ];
+    let (a, bdir) = match rng.below(4) {
+        0 => ("", "archive"),   // from the root into a directory
+        1 => ("inbox", ""),     // from a directory into the root
+        _ => ("inbox", "archive"),
+    };
+    for d in [a, bdir] {
+        if !d.is_empty() {
+            e.mkdir(d);
+        }
+    }
+    let join = |d: &str, n: &str| if d.is_empty() { n.to_string() } else { format!("{}/{}", d, n) };
+    let as_dir = rng.chance(1, 5);
+    let make = |e: &mut E, rng: &mut SplitMix64, path: &str| {
+        if as_dir {
+            e.mkdir(path);
+        } else {
+            e.mkfile(path, content(rng, 11));
+        }
+    };
+    // source directory: 0–1 other family members first, then the one that moves
+    let c_a = rng.below(2) as usize;
+    for n in family.iter().skip(1).take(c_a) {
+        make(e, rng, &join(a, n));
+    }
+    let x = family[0];
+    make(e, rng, &join(a, x));
+    // destination directory: other members of the family (never x itself)
+    let c_b = *rng.pick(&[1usize, 1, 2, 2, 4, 5, 6]);
+    for n in family.iter().skip(1).take(c_b) {
+        e.mkfile(&join(bdir, n), content(rng, 5));
+    }
+    if rng.chance(1, 2) {
+        // a deletion in between shifts the numbering (leaves a hole in ~1…~n)
+        let victim = family[1 + rng.below(c_b as u64) as usize];
+        e.remove(0, &join(bdir, victim));
+        if rng.chance(1, 2) {
+            e.mkfile(&join(bdir, "TextFile put back.txt"), content(rng, 3));
+        }
+    }
+    e.look(&[a, bdir].iter().filter(|d| !d.is_empty()).cloned().collect::<Vec<_>>());
+    // the move keeps the name (sometimes spelt in another case, sometimes through a handle on the destination)
+    let dst_name = match rng.below(4) {
+        0 => x.to_uppercase(),
+        1 => x.to_lowercase(),
+        _ => x.to_string(),
+    };
+    if !bdir.is_empty() && rng.chance(1, 3) {
+        if let Some(h) = e.open_handle(bdir) {
+            e.rename(0, &join(a, x), h, &dst_name);
+            e.close_handle(h);
+        }
+    } else {
+        e.rename(0, &join(a, x), 0, &join(bdir, &dst_name));
+    }
+    e.look(&[a, bdir].iter().filter(|d| !d.is_empty()).cloned().collect::<Vec<_>>());
+    // by alias and by long name
+    for alias in ["TEXTFI~1.TXT", "TEXTFI~2.TXT", "TEXTFI~3.TXT"] {
+        if as_dir {
+            e.try_open_dir(0, &join(bdir, alias));
+        } else {
+            e.try_open_file(0, &join(bdir, alias));
+        }
+    }
+    if as_dir {
+        e.try_open_dir(0, &join(bdir, x));
+    } else {
+        e.try_open_file(0, &join(bdir, x));
+    }
+    // one more newcomer in the destination, then the way back
+    e.mkfile(&join(bdir, "TextFile newcomer.txt"), content(rng, 2));
+    if rng.chance(1, 2) {
+        e.rename(0, &join(bdir, x), 0, &join(a, x));
+    }
+    e.look(&[a, bdir].iter().filter(|d| !d.is_empty()).cloned().collect::<Vec<_>>());
+}
+
 fn one(id: String, seed: u64, n: u64, cat: &Catalogue, rng: &mut SplitMix64, sink: &mut Sink) {
-    let template = n % 12;
+    let template = n % 13;
     let clock = if template == 10 && rng.chance(1, 2) { ClockMode::Tick } else { ClockMode::Const };
     let vol = match template {
         1 => tiny_root16(cat, rng, 1024),
@@ -802,6 +892,7 @@ fn one(id: String, seed: u64, n: u64, cat: &Catalogue, rng: &mut SplitMix64, sin
             8 => t_rewrite(&mut e, rng),
             9 => t_hugeseek(&mut e, rng),
             11 => t_sessions(&mut e, rng),
+            12 => t_aliasmove(&mut e, rng),
             _ => t_stamps(&mut e, rng),
         }
     }
@@ -810,7 +901,7 @@ fn one(id: String, seed: u64, n: u64, cat: &Catalogue, rng: &mut SplitMix64, sin
 
 pub fn run(tier: Tier, seed: u64, rng: &mut SplitMix64, n_override: Option<u64>, sink: &mut Sink) {
     let cat = Catalogue::build();
-    let n = tier_count(tier, n_override, 336, 6720);
+    let n = tier_count(tier, n_override, 364, 7280);
     for i in 1..=n {
         let mut r = rng.fork();
         one(hist_id("edge", seed, i), seed, i, &cat, &mut r, sink);
